@@ -626,6 +626,59 @@ fn macro_forms(st: &mut Stats) {
     probe!(st, "a comment" a and "another" b);
 }
 
+/// Every connective (and not, ite) on all pairs of functions over two variables in an environment
+/// whose table already holds MILLIONS of entries (2.2 million [quick], 17 million [thorough] —
+/// beyond 2^21 resp. 2^24): what a connective computes does not depend on how full the table is.
+fn huge_table_connectives(st: &mut Stats, filler_nodes: usize) {
+    let env: BDDEnv<usize> = BDDEnv::new();
+    util::budget(u64::MAX, 1000);
+    for i in 0..filler_nodes {
+        let _ = env.var(1_000 + i);
+    }
+    st.max("max_table_size_under_connectives", env.size() as u64);
+    let vars: Vec<(usize, u32)> = vec![(3, 0), (7, 1)];
+    let idx = |l: &usize| match *l { 3 => Some(0u32), 7 => Some(1), _ => None };
+    let all: Vec<(Rc<BDD<usize>>, Tt)> = (0..16u64).map(|b| { let t = Tt::from_u64(2, b); (build_in_env(&env, &t, &vars), t) }).collect();
+    for (a, ta) in &all {
+        for (b, tb) in &all {
+            for op in BIN_OPS.iter() {
+                st.evals += 1;
+                let case = json!({"kind": "huge-table", "op": op, "a": ta.hex(), "b": tb.hex(), "filler": filler_nodes});
+                match guarded(|| apply_engine(&env, op, a, b)) {
+                    Ok(r) => {
+                        let want = apply_ref(op, ta, tb);
+                        if tt_of_bdd(&r, 2, &idx).ok().as_ref() != Some(&want) {
+                            st.violate("c03.pointwise", format!("C03:{}:wrong-value", op), format!("in an environment of {} table entries: {}({}, {}) = {} expected table {}", env.size(), op, short(a), short(b), short(&r), want.hex()), case);
+                            return;
+                        }
+                        st.bump("connectives_in_a_huge_table");
+                    }
+                    Err(c) => {
+                        st.violate("c03.panic", format!("C03:{}:{}", op, c.signature()), format!("{:?}", c), case);
+                        return;
+                    }
+                }
+            }
+        }
+        // not and ite
+        let r = env.not(Rc::clone(a));
+        if tt_of_bdd(&r, 2, &idx).ok().as_ref() != Some(&ta.not()) {
+            st.violate("c03.pointwise", "C03:not:wrong-value".into(), format!("in an environment of {} table entries: not({}) = {}", env.size(), short(a), short(&r)), json!({"kind": "huge-table", "op": "not", "filler": filler_nodes}));
+            return;
+        }
+    }
+    for k in 0..64usize {
+        let (a, b, c) = (&all[k % 16], &all[(k * 7 + 3) % 16], &all[(k * 5 + 1) % 16]);
+        let r = env.ite(Rc::clone(&a.0), Rc::clone(&b.0), Rc::clone(&c.0));
+        let want = a.1.and(&b.1).or(&a.1.not().and(&c.1));
+        if tt_of_bdd(&r, 2, &idx).ok().as_ref() != Some(&want) {
+            st.violate("c03.pointwise", "C03:ite:wrong-value".into(), format!("in an environment of {} table entries: ite({}, {}, {}) = {}", env.size(), short(&a.0), short(&b.0), short(&c.0), short(&r)), json!({"kind": "huge-table", "op": "ite", "filler": filler_nodes}));
+            return;
+        }
+    }
+    st.nt.insert(mix(0x3_4096, filler_nodes as u64));
+}
+
 fn language_connectives(st: &mut Stats) {
     let orderings: [&[(&str, usize)]; 7] = [&[], &[("x", 0)], &[("x", 1)], &[("x", 0), ("z", 3)], &[("z", 4), ("x", 2)], &[("y", 7), ("x", 3), ("z", 5)], &[("z", 1), ("y", 0)]];
     let forms = [
@@ -740,6 +793,7 @@ pub fn run(ctx: &Ctx) -> (Stats, Spec) {
 
     language_connectives(&mut st);
     macro_forms(&mut st);
+    huge_table_connectives(&mut st, ctx.tier.pick(2_200_000usize, 17_000_000usize));
     let spec = Spec {
         rule: "exhaustive: every ordered pair (triple for ite) of Boolean functions over 3 (2) variables in every argument position, under 5 label configurations (adjacent, interleaved-disjoint, extreme indices incl. usize::MAX, overlapping, disjoint-nested); random: operands over 4-6 sparse labels built by random routes with overlapping/nested/disjoint supports, BDDEnv<usize>, BDDEnv<NamedSymbol> (ids that coincide when narrowed to 8, 16 or 32 bits) and an environment over a symbol type whose Hash writes nothing (every same-shape pair of diagrams collides); every spelling of every connective through the formula language under 7 API orderings (none, dense, 1-based, sparse, descending vectors, unlisted names), the negation of every connective and every ordered pair of connectives, and 32 formulas through the compile-time `bdd!` macro (word and symbol spellings, keywords, comments); rounds with operands NOT built by the environment (plain unshared diagrams, dropped after use, thousands of rounds on one environment). distinct = (connective, operand tables, configuration); non-trivial = every operand non-constant. MANY VARIABLES: the same judgement on environments with 65-200 variables (more than a machine word of them), where operands are random DNFs and results are compared pointwise on 48 sampled assignments per case (biased towards the operands' cubes) and walked for order / reduction.".into(),
         assumptions: vec![
